@@ -9,7 +9,7 @@
 From RU Require Import Base.Prelude Base.Utf8 Model.AsciiSet Gen.Tables Model.PercentEncoding
   Model.HostT Model.UrlRecord Model.Parser Model.WF
   Proofs.ListN Proofs.C06_List Proofs.C02_Parts Proofs.C02_Opaque Proofs.C03_WF Proofs.C06_WFI Proofs.C06_Tail
-  Proofs.C06_Steps Proofs.C06_FragQuery Proofs.C06_PathParser
+  Proofs.C06_Steps Proofs.C06_Suffix Proofs.C06_FragQuery Proofs.C06_PathParser
   Proofs.C04_Parse Proofs.C04_PathTotal Proofs.C04_ParseTotal Proofs.C03_ReachParts.
 
 Ltac urec :=
@@ -62,6 +62,25 @@ Proof.
     rewrite nfirstn_all by (rewrite nlen_nskipn; lia). exact Q.
 Qed.
 
+(* ---------- the host text (C06's host_text_ok) lies in front of the path ---------- *)
+Lemma ht_none u : hosti u = HI_None -> host_text_ok u.
+Proof. intros E Hh. unfold has_host in Hh. rewrite E in Hh. discriminate. Qed.
+
+Lemma wf_host_range u : wf_b u = true -> host_start u < host_end u -> host_end u <= path_start u.
+Proof.
+  intros W Hlt. destruct (has_authority_b u) eqn:Ha.
+  - exact (af_ps (wf_auth_facts u W Ha)).
+  - pose proof (wf_noauth_facts u W Ha) as F. pose proof (nf_hs F). pose proof (nf_he F). lia.
+Qed.
+
+Lemma ht_pre a u u' : agree_pre a (ser u) (ser u') -> host_end u <= a ->
+  host_start u' = host_start u -> host_end u' = host_end u -> hosti u' = hosti u ->
+  host_text_ok u -> host_text_ok u'.
+Proof.
+  intros Hpre Ha E3 E4 E5 HT Hh. unfold has_host in Hh. rewrite E5 in Hh. destruct (HT Hh) as (T1 & T2 & T3).
+  rewrite E3, E4. split; [exact T1|]. rewrite !(pre_byte_eqb a _ _ _ _ Hpre) by lia. split; assumption.
+Qed.
+
 (* ---------- B. the query / fragment states append to a well-formed record ---------- *)
 Lemma pqf_wf ovr st se w rem s2 qs fs : wf_b w = true -> query_start w = None -> fragment_start w = None ->
   parse_query_and_fragment ovr CUrlParser st se (ser w) rem = POk (s2, qs, fs) ->
@@ -96,11 +115,21 @@ Proof.
       * left. rewrite app_nil_r. reflexivity.
 Qed.
 
+Lemma pqf_ht ovr st se w rem s2 qs fs : wf_b w = true -> host_text_ok w ->
+  parse_query_and_fragment ovr CUrlParser st se (ser w) rem = POk (s2, qs, fs) ->
+  host_text_ok (mkUrl s2 (scheme_end w) (username_end w) (host_start w) (host_end w) (hosti w) (port w) (path_start w) qs fs).
+Proof.
+  intros W HT H. destruct (pqf_shape _ _ _ _ _ _ _ _ H) as (q & f & -> & _).
+  intros Hh. pose proof (HT Hh) as (T1 & _). pose proof (wf_host_range w W T1) as R. pose proof (path_start_le_len w W) as L.
+  revert Hh. apply (ht_pre (nlen (ser w)) w); try reflexivity; [apply agree_pre_app_r | lia | exact HT].
+Qed.
+
 (* ---------- C. with_query_and_fragment ---------- *)
 (* what the states in front of it establish: scheme, the text in front of the path laid out either as an
    authority or as "scheme:" / "scheme:/." , and a path free of '?' / '#' *)
 Definition front_ok (v : url) : Prop :=
   scheme_ok v /\ path_start v <= nlen (ser v) /\ forallb no_qh (nskipn (path_start v) (ser v)) = true
+  /\ host_text_ok v
   /\ ((has_authority_b v = true /\ auth_ok v
        /\ (path_start v = nlen (ser v) \/ nnth (ser v) (path_start v) = Some 47))
       \/ (username_end v = scheme_end v + 1 /\ host_start v = scheme_end v + 1 /\ host_end v = scheme_end v + 1
@@ -127,21 +156,22 @@ Qed.
 Theorem wqf_wf ovr st v rem u : front_ok v -> query_start v = None -> fragment_start v = None ->
   with_query_and_fragment ovr CUrlParser st (scheme_end v) (username_end v) (host_start v) (host_end v)
     (hosti v) (port v) (path_start v) (ser v) rem = POk u ->
-  wf_b u = true.
+  wf_b u = true /\ host_text_ok u.
 Proof.
-  destruct v as [s se ue hs he hi pt ps qs0 fs0]. urec. intros (S & L & Q & F) -> ->.
+  destruct v as [s se ue hs he hi pt ps qs0 fs0]. urec. intros (S & L & Q & HT & F) -> ->.
   pose proof S as (S1 & (c0 & Sc & Sa) & S3 & S4). urec. apply byte_eqb_nnth in S4.
   unfold with_query_and_fragment.
   (* the last step, for a well-formed record w in front of the query *)
-  assert (forall w, wf_b w = true -> query_start w = None -> fragment_start w = None ->
+  assert (forall w, wf_b w = true -> host_text_ok w -> query_start w = None -> fragment_start w = None ->
             scheme_end w = se -> username_end w = ue -> host_start w = hs -> host_end w = he -> hosti w = hi ->
             port w = pt ->
             (' (ser2, qs, fs) <~ parse_query_and_fragment ovr CUrlParser st se (ser w) rem ;;
-             POk (mkUrl ser2 se ue hs he hi pt (path_start w) qs fs)) = POk u -> wf_b u = true) as Hlast.
-  { intros w W Eq Ef E1 E2 E3 E4 E5 E6 H.
+             POk (mkUrl ser2 se ue hs he hi pt (path_start w) qs fs)) = POk u -> wf_b u = true /\ host_text_ok u) as Hlast.
+  { intros w W HTw Eq Ef E1 E2 E3 E4 E5 E6 H.
     destruct (parse_query_and_fragment ovr CUrlParser st se (ser w) rem) as [[[s2 qs] fs]| |] eqn:Ep; cbn [pbind] in H; try discriminate.
     inversion H; subst u. pose proof (pqf_wf _ _ _ _ _ _ _ _ W Eq Ef Ep) as R.
-    rewrite E1, E2, E3, E4, E5, E6 in R. exact R. }
+    pose proof (pqf_ht _ _ _ _ _ _ _ _ W HTw Ep) as R2.
+    rewrite E1, E2, E3, E4, E5, E6 in R, R2. split; [exact R | exact R2]. }
   destruct (ps =? se + 1) eqn:E1.
   - (* "scheme:" directly followed by the path *)
     apply N.eqb_eq in E1. subst ps.
@@ -152,7 +182,7 @@ Proof.
       assert (nlen (nfirstn (se + 1) s) = se + 1) as Lp by (apply nlen_nfirstn; exact L).
       intros H.
       apply (Hlast (mkUrl (nfirstn (se + 1) s ++ [47; 46] ++ nskipn (se + 1) s) se (se + 1) (se + 1) (se + 1) HI_None None (se + 1 + 2) None None));
-        try reflexivity; [|exact H].
+        try reflexivity; [|apply ht_none; reflexivity|exact H].
       apply front_noauth_wf; try assumption.
       * apply (scheme_ok_pre (se + 1) (mkUrl s se (se + 1) (se + 1) (se + 1) HI_None None (se + 1) None None));
           [urec; apply agree_pre_nfirstn; exact L | urec; lia | reflexivity | exact S].
@@ -166,7 +196,7 @@ Proof.
         rewrite app_assoc. rewrite nskipn_app_len. exact Ess.
     + destruct (starts_with s_css (nskipn se s)) eqn:Ea; cbn [negb passert pbind]; [discriminate|].
       intros H.
-      apply (Hlast (mkUrl s se (se + 1) (se + 1) (se + 1) HI_None None (se + 1) None None)); try reflexivity; [|exact H].
+      apply (Hlast (mkUrl s se (se + 1) (se + 1) (se + 1) HI_None None (se + 1) None None)); try reflexivity; [|apply ht_none; reflexivity|exact H].
       apply front_noauth_wf; try assumption. left. reflexivity.
   - apply N.eqb_neq in E1.
     destruct ((ps =? se + 3) && list_eqb (nfirstn (ps - se) (nskipn se s)) [58; 47; 46]) eqn:E2.
@@ -180,7 +210,7 @@ Proof.
       rewrite match47.
       destruct (match nnth s (se + 3 + 1) with Some d => d =? 47 | None => false end) eqn:Ed.
       * rewrite Ha. cbn [negb passert pbind]. intros H.
-        apply (Hlast (mkUrl s se (se + 1) (se + 1) (se + 1) HI_None None (se + 3) None None)); try reflexivity; [|exact H].
+        apply (Hlast (mkUrl s se (se + 1) (se + 1) (se + 1) HI_None None (se + 3) None None)); try reflexivity; [|apply ht_none; reflexivity|exact H].
         apply front_noauth_wf; try assumption. right. split; [reflexivity|]. split; [exact B1|]. split; [exact B2|].
         apply ss_of_bytes; [exact E47|]. destruct (nnth s (se + 3 + 1)) as [d|]; [|discriminate].
         apply N.eqb_eq in Ed. subst d. reflexivity.
@@ -190,7 +220,7 @@ Proof.
         assert (nlen (nfirstn se s) = se) as Lp by (apply nlen_nfirstn; exact Ls).
         intros H.
         apply (Hlast (mkUrl (nfirstn se s ++ [58] ++ nskipn (se + 3) s) se (se + 1) (se + 1) (se + 1) HI_None None (se + 3 - 2) None None));
-          try reflexivity; [|exact H].
+          try reflexivity; [|apply ht_none; reflexivity|exact H].
         replace (se + 3 - 2) with (se + 1) by lia.
         apply front_noauth_wf; try assumption.
         -- unfold scheme_ok. urec. split; [exact S1|]. split; [|split].
@@ -203,7 +233,7 @@ Proof.
         -- left. reflexivity.
     + (* everything else: the record has an authority *)
       cbn [pbind]. intros H.
-      apply (Hlast (mkUrl s se ue hs he hi pt ps None None)); try reflexivity; [|exact H].
+      apply (Hlast (mkUrl s se ue hs he hi pt ps None None)); try reflexivity; [|exact HT|exact H].
       destruct F as [(Ha & A & P)|(-> & -> & -> & -> & -> & [P|(P1 & P2 & P3)])].
       * apply mid_wf; try reflexivity; try assumption. rewrite Ha. split; assumption.
       * contradiction.
@@ -264,13 +294,21 @@ Proof using HW.
   assert (ue <> nlen ser1 -> ue < nlen ser1) as Hue.
   { intros Hne. destruct U as [(-> & ->)|[(U1 & U2 & U3 & U4)|(U1 & U2 & U3)]]; [|lia|lia].
     exfalso. apply Hne. subst ser1. rewrite app_nil_r. reflexivity. }
-  unfold front_ok. urec. split; [|split; [exact Hlen|split; [exact Hq|]]].
+  unfold front_ok. urec. split; [|split; [exact Hlen|split; [exact Hq|split]]].
   - (* scheme *)
     unfold scheme_ok. urec. split; [exact S1|]. split; [|split].
     + exists c0. split; [|exact Sa]. rewrite HbS by lia. exact Sc.
     + rewrite (pre_firstn _ _ _ se Hpre) by lia. subst ser2 ser1 A. rewrite <- !app_assoc.
       rewrite nfirstn_app_le by lia. exact S3.
     + apply byte_eqb_true_iff. rewrite HbS by lia. exact S4.
+  - (* host text *)
+    intros Hhas. unfold has_host in Hhas. urec.
+    destruct Hh as [(-> & _)|(Hne & H58 & H64 & _)]; [cbn in Hhas; discriminate|].
+    destruct (hd h) as [|c t] eqn:Ehd; [contradiction|].
+    assert (nnth s3 (nlen ser1) = Some c) as Ec.
+    { rewrite Hb by (rewrite L2, nlen_cons; lia). subst ser2. rewrite nnth_app_ge by lia. rewrite N.sub_diag. reflexivity. }
+    split; [rewrite nlen_cons; lia|]. cbn in H58, H64.
+    split; apply byte_eqb_false_of; congruence.
   - left. split; [|split].
     + unfold has_authority_b. urec. apply css_of_bytes; [rewrite HbS by lia; exact S4 | exact B1 | exact B2].
     + unfold auth_ok. urec.
@@ -282,7 +320,7 @@ Proof using HW.
         destruct U as [(Ex & Eu)|[(U1 & U2 & U3 & U4)|(U1 & U2 & U3)]].
         -- left. assert (ue = nlen ser1) as E by (subst ser1 x; rewrite app_nil_r; exact Eu).
            split; [exact E|]. split; [lia|].
-           destruct Hh as [(_ & Eh & ->)|(Hne & H58 & _)].
+           destruct Hh as [(_ & Eh & ->)|(Hne & H58 & _ & _)].
            ++ assert (nlen ser2 = ue) as E2 by (rewrite L2, Eh; cbn [ptext]; rewrite nlen_nil; lia).
               rewrite E2 in Hps. destruct Hps as [Hps|Hps]; [apply byte_eqb_oob; lia|].
               apply byte_eqb_false_of. congruence.
@@ -310,7 +348,7 @@ Proof using HW.
 Qed.
 
 Theorem ads_wf dbg ovr st se ser0 l u : st_is_file st = false -> scheme_pre_ok se ser0 ->
-  after_double_slash dbg hp hpo hd ovr CUrlParser st se ser0 l = POk u -> wf_b u = true.
+  after_double_slash dbg hp hpo hd ovr CUrlParser st se ser0 l = POk u -> wf_b u = true /\ host_text_ok u.
 Proof using HW.
   intros Hnf Hs. unfold after_double_slash.
   destruct (parse_userinfo st (ser0 ++ [47; 47]) l) as [[[ser1 ue] rm]| |] eqn:Eu; cbn [pbind]; try discriminate.
@@ -324,7 +362,7 @@ Proof using HW.
   destruct (parse_path_start dbg CUrlParser st true (((ser0 ++ [47; 47]) ++ x) ++ hd h ++ ptext pt) rm2)
     as [[[s3 hh] rm3]| |] eqn:Ep; cbn [pbind]; try discriminate.
   assert (st_is_special st = true -> ends_with_byte 47 (((ser0 ++ [47; 47]) ++ x) ++ hd h ++ ptext pt) = false) as He.
-  { intros Esp. destruct Hh as [(_ & _ & _ & Hns)|(Hne & _ & H47)]; [congruence|].
+  { intros Esp. destruct Hh as [(_ & _ & _ & Hns)|(Hne & _ & _ & H47)]; [congruence|].
     destruct pt as [p|]; cbn [ptext].
     - rewrite app_assoc. apply port_text_last.
     - rewrite app_nil_r. rewrite ends_with_byte_app by exact Hne. exact H47. }
@@ -358,7 +396,7 @@ Lemma noauth_front_ok se ser0 s1 : scheme_pre_ok se ser0 -> agree_pre (se + 1) s
   front_ok (mkUrl s1 se (se + 1) (se + 1) (se + 1) HI_None None (se + 1) None None).
 Proof.
   intros (S1 & (c0 & Sc & Sa) & S3 & S4 & S5) Hpre Hl Hq. unfold front_ok. urec.
-  split; [|split; [exact Hl|split; [exact Hq|]]].
+  split; [|split; [exact Hl|split; [exact Hq|split; [apply ht_none; reflexivity|]]]].
   - unfold scheme_ok. urec. split; [exact S1|]. split; [|split].
     + exists c0. split; [|exact Sa]. rewrite (pre_nnth _ _ _ 0 Hpre) by lia. exact Sc.
     + rewrite (pre_firstn _ _ _ se Hpre) by lia. exact S3.
@@ -374,7 +412,7 @@ Variable ovr : option (list N -> list N).
 Hypothesis HW : HostWf hp hpo hd.
 
 Theorem parse_non_special_wf se ser0 l u : scheme_pre_ok se ser0 ->
-  parse_non_special dbg hp hpo hd ovr CUrlParser STNotSpecial se ser0 l = POk u -> wf_b u = true.
+  parse_non_special dbg hp hpo hd ovr CUrlParser STNotSpecial se ser0 l = POk u -> wf_b u = true /\ host_text_ok u.
 Proof using HW.
   intros Hs. pose proof Hs as (_ & _ & _ & _ & S5). unfold parse_non_special.
   destruct (inp_split_prefix_str s_ss l) as [rm|]; [apply (ads_wf hp hpo hd HW); [reflexivity | exact Hs]|].
@@ -422,14 +460,16 @@ Proof using.
 Qed.
 
 (* a new path behind the front of a well-formed base *)
-Lemma base_front_ok b s : wf_b b = true -> agree_pre (path_start b) (ser b) s -> nnth s (path_start b) = Some 47 ->
+Lemma base_front_ok b s : wf_b b = true -> host_text_ok b -> agree_pre (path_start b) (ser b) s -> nnth s (path_start b) = Some 47 ->
   forallb no_qh (nskipn (path_start b) s) = true ->
   front_ok (url_with b s None None).
 Proof using.
-  intros W Hpre H47 Hq. pose proof (wf_se_lt_ps b W) as Hse. pose proof (nnth_lt _ _ _ H47) as Hl.
+  intros W HT Hpre H47 Hq. pose proof (wf_se_lt_ps b W) as Hse. pose proof (nnth_lt _ _ _ H47) as Hl.
   pose proof W as W0. apply wf_b_iff in W0. destruct W0 as (S & AU & _).
-  unfold front_ok, url_with. urec. split; [|split; [lia|split; [exact Hq|]]].
+  unfold front_ok, url_with. urec. split; [|split; [lia|split; [exact Hq|split]]].
   - apply (scheme_ok_pre (path_start b) b); [exact Hpre | exact Hse | reflexivity | exact S].
+  - intros Hh. pose proof (HT Hh) as (T1 & _). pose proof (wf_host_range b W T1) as R. revert Hh.
+    apply (ht_pre (path_start b) b); try reflexivity; [exact Hpre | exact R | exact HT].
   - destruct (has_authority_b b) eqn:Ha.
     + left. destruct AU as [AU _]. pose proof (wf_auth_facts b W Ha) as F.
       pose proof (af_ue F); pose proof (af_hs F); pose proof (af_he F); pose proof (af_ps F).
@@ -458,6 +498,25 @@ Proof using.
   - destruct b as [s se ue hs he hi pt ps qs fs]. cbn in *. subst fs. exact W.
 Qed.
 
+(* a serialization that keeps everything up to the end of the path keeps the host text *)
+Lemma base_ht b s qs fs : wf_b b = true -> host_text_ok b -> agree_pre (path_start b) (ser b) s ->
+  host_text_ok (url_with b s qs fs).
+Proof using.
+  intros W HT Hpre Hh. pose proof (HT Hh) as (T1 & _). pose proof (wf_host_range b W T1) as R. revert Hh.
+  apply (ht_pre (path_start b) b); try reflexivity; [exact Hpre | exact R | exact HT].
+Qed.
+
+Lemma bf_pre b : wf_b b = true -> agree_pre (path_start b) (ser b) (b_before_fragment b).
+Proof using.
+  intros W. unfold b_before_fragment. pose proof (wf_qf_facts b W) as QF. pose proof (qf_f QF) as Q2.
+  destruct (fragment_start b) as [f|]; [|reflexivity]. apply agree_pre_nfirstn_ge. lia.
+Qed.
+
+Lemma bq_pre b : wf_b b = true -> agree_pre (path_start b) (ser b) (b_before_query b).
+Proof using.
+  intros W. destruct (bq_shape b W) as (-> & P1 & _). apply agree_pre_nfirstn_ge. exact P1.
+Qed.
+
 Lemma base_cut_query_wf b : wf_b b = true -> wf_b (url_with b (b_before_query b) None None) = true.
 Proof using.
   intros W. destruct (bq_shape b W) as (Ebq & P1 & P2). rewrite Ebq.
@@ -476,13 +535,17 @@ Proof using.
     rewrite nskipn_nfirstn_comm. rewrite nfirstn_nfirstn by lia. exact Q4.
 Qed.
 
-Lemma fragment_only_wf b l u : wf_b b = true -> fragment_only b l = POk u -> wf_b u = true.
+Lemma fragment_only_wf b l u : wf_b b = true -> host_text_ok b -> fragment_only b l = POk u ->
+  wf_b u = true /\ host_text_ok u.
 Proof using.
-  intros W. unfold fragment_only. du32 (nlen (b_before_fragment b)) fs E. apply to_u32_inv in E. destruct E as [-> _].
+  intros W HT. unfold fragment_only. du32 (nlen (b_before_fragment b)) fs E. apply to_u32_inv in E. destruct E as [-> _].
   intros H. inversion H; subst u. destruct (base_cut_fragment_wf b W) as [W1 F1].
   rewrite parse_fragment_text. rewrite <- app_assoc. cbn [app].
   destruct (add_fragment_step false _ (tnl_text T_FRAGMENT match inp_next l with Some (_, r) => r | None => [] end) W1 F1) as (W2 & _).
-  exact W2.
+  split; [exact W2|].
+  apply (base_ht b _ (query_start b) (Some (nlen (b_before_fragment b))) W HT).
+  eapply agree_pre_trans; [apply (bf_pre b W)|]. apply agree_pre_app_le.
+  pose proof (pre_len _ _ _ (bf_pre b W) (path_start_le_len b W)). lia.
 Qed.
 
 (* the path-relative arm: the base path without its last segment *)
@@ -512,24 +575,27 @@ Proof using hp hpo.
   split; [exact J1|]. split; [lia|]. split; [exact H2 | exact J2].
 Qed.
 
-Theorem parse_relative_wf st b l u : wf_b b = true -> st_is_file st = false ->
+Theorem parse_relative_wf st b l u : wf_b b = true -> host_text_ok b -> st_is_file st = false ->
   nnth (ser b) (scheme_end b + 1) = Some 47 ->
-  parse_relative dbg hp hpo hd ovr CUrlParser st b l = POk u -> wf_b u = true.
+  parse_relative dbg hp hpo hd ovr CUrlParser st b l = POk u -> wf_b u = true /\ host_text_ok u.
 Proof using HW.
-  intros W Hnf Hs.
+  intros W HT Hnf Hs.
   destruct (wf_scheme_facts b W) as (S1 & S2 & S3).
   pose proof (path_start_le_len b W) as PL.
   assert (nlen (nfirstn (path_start b) (ser b)) = path_start b) as La by (apply nlen_nfirstn; exact PL).
   unfold parse_relative, inp_split_first. destruct (inp_next l) as [[c r]|] eqn:En.
-  2:{ intros H. inversion H; subst u. apply base_cut_fragment_wf. exact W. }
+  2:{ intros H. inversion H; subst u. split; [apply base_cut_fragment_wf; exact W|].
+      apply (base_ht b _ _ _ W HT). exact (bf_pre b W). }
   assert (inp_is_empty l = false) as He by (unfold inp_is_empty; rewrite En; reflexivity).
   destruct (c =? 63).
   { destruct (parse_query_and_fragment ovr CUrlParser st (scheme_end b) (b_before_query b) l) as [[[s qs] fs]| |] eqn:Ep;
       cbn [pbind]; try discriminate.
-    intros H. inversion H; subst u.
-    exact (pqf_wf ovr st (scheme_end b) (url_with b (b_before_query b) None None) l s qs fs
-             (base_cut_query_wf b W) eq_refl eq_refl Ep). }
-  destruct (c =? 35); [apply fragment_only_wf; exact W|].
+    intros H. inversion H; subst u. split.
+    - exact (pqf_wf ovr st (scheme_end b) (url_with b (b_before_query b) None None) l s qs fs
+               (base_cut_query_wf b W) eq_refl eq_refl Ep).
+    - exact (pqf_ht ovr st (scheme_end b) (url_with b (b_before_query b) None None) l s qs fs
+               (base_cut_query_wf b W) (base_ht b _ None None W HT (bq_pre b W)) Ep). }
+  destruct (c =? 35); [apply fragment_only_wf; assumption|].
   destruct ((c =? 47) || (c =? 92) && st_is_special st).
   - destruct (inp_count_matching (fun d => (d =? 47) || (d =? 92) && st_is_special st) l) as [slashes remaining].
     destruct (2 <=? slashes).
@@ -575,9 +641,9 @@ Qed.
 
 (* ---------- G. top level ---------- *)
 Theorem parse_with_scheme_wf base sch l u :
-  match base with Some b => base_ok b = true | None => True end ->
+  match base with Some b => base_ok b = true /\ host_text_ok b | None => True end ->
   st_is_file (scheme_type_of sch) = false -> scheme_canon sch = true ->
-  parse_with_scheme dbg hp hpo hd ovr base sch l = POk u -> wf_b u = true.
+  parse_with_scheme dbg hp hpo hd ovr base sch l = POk u -> wf_b u = true /\ host_text_ok u.
 Proof using HW.
   intros Hb Hnf Hc. pose proof (scheme_pre_of_canon sch Hc) as Hpre.
   unfold parse_with_scheme. du32 (nlen sch) se E. apply to_u32_inv in E. destruct E as [-> _].
@@ -586,25 +652,26 @@ Proof using HW.
     destruct base as [b|]; [|apply (ads_wf hp hpo hd HW); [reflexivity | exact Hpre]].
     destruct ((slashes <? 2) && list_eqb (b_scheme b) sch) eqn:Ec; [|apply (ads_wf hp hpo hd HW); [reflexivity | exact Hpre]].
     apply andb_true_iff in Ec. destruct Ec as [_ Ec]. apply list_eqb_spec in Ec.
+    destruct Hb as [Hb HT].
     unfold base_ok in Hb. apply andb_true_iff in Hb. destruct Hb as [W Hb]. rewrite Ec, Est in Hb. cbn in Hb.
     match goal with |- pbind ?e _ = _ -> _ => destruct e as [[]| |]; cbn [pbind]; try discriminate end.
-    apply parse_relative_wf; [exact W | reflexivity | apply byte_eqb_nnth; exact Hb].
+    apply parse_relative_wf; [exact W | exact HT | reflexivity | apply byte_eqb_nnth; exact Hb].
   - apply parse_non_special_wf. exact Hpre.
 Qed.
 
 Theorem parse_url_wf base input u :
-  match base with Some b => base_ok b = true | None => True end ->
+  match base with Some b => base_ok b = true /\ host_text_ok b | None => True end ->
   file_involved base input = false ->
-  parse_url dbg hp hpo hd ovr base input = POk u -> wf_b u = true.
+  parse_url dbg hp hpo hd ovr base input = POk u -> wf_b u = true /\ host_text_ok u.
 Proof using HW.
   intros Hb Hk. unfold parse_url. unfold file_involved in Hk.
   destruct (parse_scheme CUrlParser (input_new_trim_c0 input)) as [[sch rem]|] eqn:Es.
   - apply parse_with_scheme_wf; [exact Hb | exact Hk | exact (parse_scheme_out _ _ _ Es)].
-  - destruct base as [b|]; [|discriminate].
+  - destruct base as [b|]; [|discriminate]. destruct Hb as [Hb HT].
     unfold base_ok in Hb. apply andb_true_iff in Hb. destruct Hb as [W _].
-    destruct (inp_starts_with_char 35 (input_new_trim_c0 input)); [apply fragment_only_wf; exact W|].
+    destruct (inp_starts_with_char 35 (input_new_trim_c0 input)); [apply fragment_only_wf; assumption|].
     rewrite (cannot_be_a_base_eval b W).
     destruct (byte_eqb (ser b) (scheme_end b + 1) 47) eqn:Eb; cbn [negb]; [|discriminate].
-    rewrite (not_file_scheme _ Hk). apply parse_relative_wf; [exact W | apply not_file_scheme; exact Hk | apply byte_eqb_nnth; exact Eb].
+    rewrite (not_file_scheme _ Hk). apply parse_relative_wf; [exact W | exact HT | apply not_file_scheme; exact Hk | apply byte_eqb_nnth; exact Eb].
 Qed.
 End Top.
